@@ -86,6 +86,39 @@ def catalogue():
     add("struct-$default-byte_order-overrides-module-default", 'struct Foo:\n  [$default byte_order: "BigEndian"]\n  0 [+2]  UInt  x\n', True)
     add("nested-struct-inherits-outer-struct-$default", 'struct Outer:\n  [$default byte_order: "BigEndian"]\n  struct Inner:\n    0 [+2]  UInt  x\n  0 [+2]  Inner  i\n', True, default_bo=False)
     add("sibling-struct-does-not-inherit-$default", 'struct Aa:\n  [$default byte_order: "BigEndian"]\n  0 [+2]  UInt  x\nstruct Bb:\n  0 [+2]  UInt  y\n', False, default_bo=False)
+    # attribute placement matrix: every attribute x every place an attribute list can stand x plain / $default, with a
+    # well-typed value; accepted exactly at the documented places (language reference, sections on attributes of modules,
+    # struct / bits / enum / external definitions and fields - pinned here, not read from the checker's tables)
+    VALUES = {"byte_order": '"LittleEndian"', "fixed_size_in_bits": "8", "requires": "%s == 1", "maximum_bits": "8", "is_signed": "false", "addressable_unit_size": "8",
+              "is_integer": "false", "static_requirements": "$is_statically_sized", "text_output": '"Skip"', "expected_back_ends": '"cpp"'}
+    DOCUMENTED = {"module": {("byte_order", True), ("expected_back_ends", False)},
+                  "struct": {("fixed_size_in_bits", False), ("byte_order", True), ("requires", False)},
+                  "bits": {("fixed_size_in_bits", False), ("requires", False)},
+                  "enum": {("maximum_bits", False), ("is_signed", False)},
+                  "external": {("addressable_unit_size", False), ("fixed_size_in_bits", False), ("is_integer", False), ("static_requirements", False)},
+                  "physical-field": {("byte_order", False), ("requires", False), ("text_output", False)},
+                  "virtual-field": {("requires", False), ("text_output", False)}}
+    for ctx in sorted(DOCUMENTED):
+        for attr in sorted(VALUES):
+            for dflt in (False, True):
+                val = VALUES[attr] % ("x" if ctx in ("struct", "bits") else "this") if attr == "requires" else VALUES[attr]
+                line = "[%s%s: %s]" % ("$default " if dflt else "", attr, val)
+                hdr = "" if (ctx == "module" and attr == "byte_order") else HDR
+                if ctx == "module":
+                    text = hdr + line + "\nstruct Foo:\n  0 [+1]  UInt  x\n"
+                elif ctx == "struct":
+                    text = hdr + "struct Foo:\n  " + line + "\n  0 [+1]  UInt  x\n"
+                elif ctx == "bits":
+                    text = hdr + "bits Foo:\n  " + line + "\n  0 [+8]  UInt  x\n"
+                elif ctx == "enum":
+                    text = hdr + "enum Ee:\n  " + line + "\n  AA = 1\n"
+                elif ctx == "external":
+                    text = hdr + "external Xx:\n  " + line + "\n" + ("" if attr == "addressable_unit_size" and not dflt else "  [addressable_unit_size: 8]\n")
+                elif ctx == "physical-field":
+                    text = hdr + "struct Foo:\n  0 [+2]  UInt  x\n    " + line + "\n"
+                else:
+                    text = hdr + "struct Foo:\n  0 [+1]  UInt  x\n  let v = x + 1\n    " + line + "\n"
+                c.append(("attribute-placement:%s%s-on-%s" % ("$default-" if dflt else "", attr, ctx), text, (attr, dflt) in DOCUMENTED[ctx]))
     # attributes
     add("unknown-attribute", "struct Foo:\n  [bogus: 1]\n  0 [+1]  UInt  x\n", False)
     add("duplicate-attribute", 'struct Foo:\n  0 [+2]  UInt  x\n    [byte_order: "BigEndian"]\n    [byte_order: "BigEndian"]\n', False)
